@@ -2,7 +2,7 @@
    Property theorems only; each closed by a lemma from Proofs/PublicP.v or Proofs/GoCHP*.v.
    State of the files: they model the UNCHANGED code (no fix was needed). *)
 From Coq Require Import String.
-From UV Require Import Base.Common Model.Public Model.GoCH Proofs.PublicP Proofs.GoCHP Proofs.GoCHP2 Proofs.GoCHP3.
+From UV Require Import Base.Common Model.Public Model.GoCH Proofs.PublicP Proofs.GoCHP Proofs.GoCHP2 Proofs.GoCHP3 Proofs.GoCHP4 Proofs.GoCHP5.
 Open Scope N_scope.
 
 (* ---- ClientHello view: public -> private -> public keeps every field that has a counterpart
@@ -121,14 +121,37 @@ Theorem C31_marshal_when_raw_cleared : forall c, Marshal (CH_clear_raw c) = mars
 Proof. exact marshal_cleared. Qed.
 Print Assumptions C31_marshal_when_raw_cleared.
 
-(* ---- clear Raw, marshal, parse again: same field values.  PARTIAL: proved for every view whose field values are
-   well-formed (wf_msgb, a decidable predicate that the correspondence run evaluates on the result of every accepted
-   parse) and whose re-marshal succeeds; that unmarshal only produces well-formed values is observed, not proved. ---- *)
-Theorem C31_reparse_stable_partial : forall c b',
-  wf_msgb (CH_private_of (CH_clear_raw c)) = true -> Marshal (CH_clear_raw c) = Ok b' ->
+(* ---- clear Raw, marshal, parse again: same field values ----
+   The parser-side invariant: whatever unmarshal accepts (for all 19 known extensions; unknown ones are skipped as in the
+   Go code) has well-formed field values.  [bytes_ok b] only says that the elements of b are bytes. *)
+Theorem C31_unmarshal_wellformed : forall b m, bytes_ok b -> unmarshal b = Some m -> wf_msgb m = true.
+Proof. intros b m H E. exact (unmarshal_wf b m E H). Qed.
+Print Assumptions C31_unmarshal_wellformed.
+
+(* The statement at full strength ... *)
+Definition C31_reparse_stable_full : Prop :=
+  forall b m, bytes_ok b -> unmarshal b = Some m ->
+  exists b' m', marshalMsg (ch_clear_raw m) = Ok b' /\ unmarshal b' = Some m' /\ ch_fields m' = ch_fields m.
+(* ... is refuted by the faithful model (and by the code: the runner replays the witness, finding
+   remarshal/scsv-ext-block-overflow): a ClientHello whose suites contain the renegotiation SCSV, without a
+   renegotiation_info extension and with a 65535-byte extension block, parses, but its re-marshal needs 5 more bytes
+   for the renegotiation_info that marshalMsg adds, and fails. *)
+Theorem C31_reparse_stable_refuted : ~ C31_reparse_stable_full.
+Proof. exact reparse_full_refuted. Qed.
+Print Assumptions C31_reparse_stable_refuted.
+(* The strongest true conditional: NO well-formedness premise; whenever the re-marshal succeeds, the second parse
+   succeeds and gives equal field values. *)
+Theorem C31_reparse_stable_holds_if : forall b m b', bytes_ok b -> unmarshal b = Some m ->
+  marshalMsg (ch_clear_raw m) = Ok b' ->
+  exists m', unmarshal b' = Some m' /\ ch_fields m' = ch_fields m /\ ch_original m' = Some b'.
+Proof. intros b m b' H E Em. exact (reparse_stable b m b' H E Em). Qed.
+Print Assumptions C31_reparse_stable_holds_if.
+(* the same through the public entry points *)
+Theorem C31_reparse_stable : forall b c b', bytes_ok b -> UnmarshalClientHello b = Some c ->
+  Marshal (CH_clear_raw c) = Ok b' ->
   exists c', UnmarshalClientHello b' = Some c' /\ CH_values c' = CH_values c /\ CH_Raw c' = Some b'.
-Proof. exact reparse_pub_checked. Qed.
-Print Assumptions C31_reparse_stable_partial.
+Proof. exact reparse_stable_pub. Qed.
+Print Assumptions C31_reparse_stable.
 (* the private-level statement it rests on: marshalMsg then unmarshal returns every field *)
 Theorem C31_marshal_unmarshal : forall m b, wf_msg m -> marshalMsg m = Ok b ->
   exists m', unmarshal b = Some m' /\ ch_fields m' = ch_fields m /\ ch_original m' = Some b /\
@@ -151,6 +174,8 @@ Proof. vm_compute. reflexivity. Qed.
 Example C31_ex_reparse : exists b c', Marshal (CH_clear_raw ex_hello) = Ok b /\ UnmarshalClientHello b = Some c' /\
   CH_values c' = CH_values ex_hello.
 Proof. vm_compute. eexists. eexists. repeat split. Qed.
+Example C31_ex_witness : bytes_okb scsv_witness = true /\ N.of_nat (List.length scsv_witness) = 65582.
+Proof. split; vm_compute; reflexivity. Qed.
 Example C31_ex_raw : Marshal ex_hello = Ok [9; 9].
 Proof. reflexivity. Qed.
 Example C31_ex_pub_priv_pub : exists p c', CH_getPrivatePtr (Some ex_hello) = Some (p, c') /\ ch_extensions p = [].
